@@ -69,7 +69,7 @@ func init() {
 		if seed%3 == 2 {
 			scMisbehaviour(t, w, int(seed)/3)
 		} else {
-			scEvidence(t, w, int(seed))
+			scEvidence(t, w, int(seed)-int(seed+1)/3) // consecutive variants for the double-voting seeds
 		}
 		return w
 	}
